@@ -712,3 +712,237 @@ def head_shadow(rng, variant: Optional[str] = None, py_safe: bool = False):
         files["zlibq.bitproto"] = [["proto", None, "zlibq"], leaf(tail, w[0], kind)]
         info = dict(variant=variant, top_def=None, nested=nested, map=mp, head=head, tail=tail, imp=imp)
     return files, ["Map"], info
+
+
+# --------------------------------------------------------------------------------------
+# scenario families (round 2): name resolution depends on WHERE and AFTER WHAT a name is used
+# every function returns (files, top path or None, info) with info["expect"] = (code, node) where
+# node is the statement the diagnostic must cite (None: accepted)
+# --------------------------------------------------------------------------------------
+
+def _leaf(name, width, kind):
+    if kind == "enum":
+        return ["enum", None, name, ["uint", width], [["efield", None, "Z0", 0], ["efield", None, "Z1", (1 << width) - 1]]]
+    if kind == "alias":
+        return ["alias", None, name, ["single", ["uint", width]]]
+    return ["msg", None, name, False, [["field", None, ["single", ["uint", width]], "v", 1]]]
+
+
+def _f(t, name, num):
+    return ["field", None, t, name, num]
+
+
+def _ref(*p):
+    return ["single", ["ref", list(p)]]
+
+
+def _wrap(rng, items, depth):
+    """optionally nest a list of message-level items inside `depth` enclosing messages"""
+    for i in range(depth):
+        items = [["msg", None, f"Wrap{i}", rng.random() < 0.3, items]]
+    return items
+
+
+def dotted_reuse(rng, variant: Optional[str] = None):
+    """the SAME dotted text used twice in one file: first where it resolves relative to a nested
+    scope, later from a scope where it must not resolve / must resolve to another definition"""
+    variant = variant or rng.choice(["escape", "twin", "outer_later", "escape_deep"])
+    w = rng.sample([2, 3, 5, 6, 7, 9, 11, 12, 13], 3)
+    kind = rng.choice(["enum", "msg"])
+    hb, tc = rng.choice([("Bb", "Cc"), ("Geo", "Unit"), ("In", "Leaf")])
+    first = ["msg", None, "Aa", False, [["msg", None, hb, False, [_leaf(tc, w[0], kind)]], _f(_ref(hb, tc), "f", 1)]]
+    use = _f(_ref(hb, tc) if rng.random() < 0.7 else ["arr", ["ref", [hb, tc]], ["lit", 2], False], "g", 1)
+    later = ["msg", None, "Dd", False, [use, _f(["single", ["uint", w[2]]], "h", 2)]]
+    if variant == "escape":
+        items, exp = [first, later], (9, use)
+    elif variant == "escape_deep":
+        # both inside one enclosing message: still not visible from the sibling
+        items, exp = [["msg", None, "Outer", False, [first, later]]], (9, use)
+    elif variant == "twin":
+        later[4].insert(0, ["msg", None, hb, False, [_leaf(tc, w[1], kind)]])
+        items, exp = [first, later], (0, None)
+    else:
+        items, exp = [first, ["msg", None, hb, False, [_leaf(tc, w[1], kind)]], later], (0, None)
+    files = {"rootp.bitproto": [["proto", None, "rootp"]] + items}
+    return files, (["Dd"] if variant in ("twin", "outer_later") else None), dict(family="dotted_reuse", variant=variant, expect=exp)
+
+
+def cross_kind(rng, variant: Optional[str] = None):
+    """a declaration of the WRONG kind in an inner scope hides the outer type / constant of that
+    name: the use is an error, not a reference to the outer definition"""
+    variant = variant or rng.choice(["type_by_field", "type_by_outer_field", "const_by_nested", "const_by_field",
+                                     "const_option_by_nested", "type_not_hidden_by_enum_member"])
+    w = rng.sample([2, 3, 5, 6, 7, 9, 11], 3)
+    tk = rng.choice(["enum", "alias", "msg"])
+    nm = rng.choice(["Tt", "Kind", "Unit"])
+    if variant == "type_by_field":
+        use = _f(_ref(nm), "x", 2)
+        items = [_leaf(nm, w[0], tk), ["msg", None, "Mm", False, [_f(["single", ["uint", w[1]]], nm, 1), use]]]
+        exp = (10, use)
+    elif variant == "type_by_outer_field":
+        use = _f(_ref(nm), "y", 1)
+        items = [_leaf(nm, w[0], tk), ["msg", None, "Mm", False, [_f(["single", ["uint", w[1]]], nm, 1),
+                                                                  ["msg", None, "Nn", False, [use]]]]]
+        exp = (10, use)
+    elif variant == "const_by_nested":
+        use = _f(["arr", ["bool"], ["ref", ["KK"]], False], "a", 1)
+        items = [["const", None, "KK", ["expr", ["int", 3]]],
+                 ["msg", None, "Mm", False, [_leaf("KK", w[0], rng.choice(["enum", "msg"])), use]]]
+        exp = (8, use)
+    elif variant == "const_by_field":
+        use = _f(["arr", ["bool"], ["ref", ["KK"]], False], "a", 2)
+        items = [["const", None, "KK", ["expr", ["int", 3]]],
+                 ["msg", None, "Mm", False, [_f(["single", ["uint", w[1]]], "KK", 1), use]]]
+        exp = (8, use)
+    elif variant == "const_option_by_nested":
+        use = ["option", None, "max_bytes", ["ref", ["KK"]]]
+        items = [["const", None, "KK", ["expr", ["int", 64]]],
+                 ["msg", None, "Mm", False, [_leaf("KK", w[0], "enum"), use, _f(["single", ["bool"]], "b", 1)]]]
+        exp = (8, use)
+    else:
+        use = _f(_ref(nm), "x", 1)
+        items = [_leaf(nm, w[0], tk), ["msg", None, "Mm", False, [["enum", None, "Zq", ["uint", 2], [["efield", None, nm, 0]]], use]]]
+        exp = (0, None)            # an enum MEMBER is a member of the enum, not of Mm: the outer type is used
+    files = {"rootp.bitproto": [["proto", None, "rootp"]] + items}
+    return files, None, dict(family="cross_kind", variant=variant, expect=exp)
+
+
+def popped_by_member(rng, variant: Optional[str] = None):
+    """a field / enum member named like a visible type / constant / import; AFTER that scope is
+    closed the name still denotes what it denoted before"""
+    variant = variant or rng.choice(["one_level", "two_level", "const_by_enum_member", "import_by_field", "two_level_deep"])
+    w = rng.sample([2, 3, 5, 6, 7, 9, 11], 3)
+    tk = rng.choice(["enum", "alias", "msg"])
+    nm = rng.choice(["Tt", "Kind", "Unit"])
+    files = {}
+    if variant == "one_level":
+        items = [_leaf(nm, w[0], tk), ["msg", None, "Ss", False, [_f(["single", ["bool"]], nm, 1)]],
+                 ["msg", None, "Uu", False, [_f(_ref(nm), "x", 1)]]]
+        top = ["Uu"]
+    elif variant in ("two_level", "two_level_deep"):
+        inner = [_leaf(nm, w[1], rng.choice(["enum", "msg"])), ["msg", None, "Ss", False, [_f(["single", ["bool"]], nm, 1)]],
+                 _f(_ref(nm), "x", 1), ["msg", None, "Vv", False, [_f(_ref(nm), "y", 1)]], _f(_ref("Vv"), "v", 2)]
+        if variant == "two_level_deep":
+            inner[1] = ["msg", None, "Ss", False, [["msg", None, "S2", False, [_f(["single", ["bool"]], nm, 1)]]]]
+        items = [_leaf(nm, w[0], tk), ["msg", None, "Aa", False, inner]]
+        top = ["Aa"]
+    elif variant == "const_by_enum_member":
+        items = [["const", None, "KK", ["expr", ["int", 3]]], ["enum", None, "Ee", ["uint", 8], [["efield", None, "KK", 0]]],
+                 ["msg", None, "Uu", False, [_f(["arr", ["uint", w[0]], ["ref", ["KK"]], False], "a", 1)]]]
+        top = ["Uu"]
+    else:
+        files["zlibp.bitproto"] = [["proto", None, "zlibp"], _leaf(nm, w[0], tk)]
+        items = [["import", None, "Lx", "zlibp.bitproto"], ["msg", None, "Ss", False, [_f(["single", ["bool"]], "Lx", 1)]],
+                 ["msg", None, "Uu", False, [_f(_ref("Lx", nm), "x", 1)]]]
+        top = ["Uu"]
+    files = {"rootp.bitproto": [["proto", None, "rootp"]] + items, **files}
+    return files, top, dict(family="popped_by_member", variant=variant, expect=(0, None))
+
+
+def twin_short_names(rng, variant: Optional[str] = None):
+    """two DIFFERENT named types with the same short name (nested in two messages, or imported vs
+    local), both used as array element with the same capacity and extensible flag"""
+    variant = variant or rng.choice(["nested", "nested", "import"])
+    w = rng.sample([2, 3, 5, 6, 7, 9, 11, 13], 2)
+    kind = rng.choice(["enum", "msg"])
+    nm = rng.choice(["Kind", "Item", "Cell"])
+    cap = rng.randint(1, 4)
+    ext = rng.random() < 0.3
+    right_leaf = _leaf(nm, w[1], kind)
+    right = ["msg", None, "Right", False, [right_leaf, _f(["arr", ["ref", [nm]], ["lit", cap], ext], "b", 1),
+                                           _f(["single", ["uint", 5]], "t", 2)]]
+    files = {}
+    if variant == "nested":
+        left = ["msg", None, "Left", False, [_leaf(nm, w[0], kind), _f(["arr", ["ref", [nm]], ["lit", cap], ext], "a", 1)]]
+        items = [left, right]
+    else:
+        files["zlibt.bitproto"] = [["proto", None, "zlibt"], _leaf(nm, w[0], kind)]
+        left = ["msg", None, "Left", False, [_f(["arr", ["ref", ["zlibt", nm]], ["lit", cap], ext], "a", 1)]]
+        items = [["import", None, None, "zlibt.bitproto"], left, right]
+    files = {"rootp.bitproto": [["proto", None, "rootp"]] + items, **files}
+    return files, ["Right"], dict(family="twin_short_names", variant=variant, expect=(0, None), left=left, right=right,
+                                  right_leaf=right_leaf, name=nm)
+
+
+def alias_clash_imports(rng):
+    """two imported files that both define a type of one name; one is imported under an `as` name
+    that equals the DECLARED proto name of the other (whose file stem differs, py.module_name set)"""
+    w = rng.sample([5, 7, 9, 11, 12, 13, 16], 2)
+    tn = rng.choice(["Dist", "Span", "Qty"])
+    files = {
+        "rootp.bitproto": [["proto", None, "rootp"], ["import", None, "zunits", "zvb.bitproto"],
+                           ["import", None, "legacy", "zva.bitproto"],
+                           ["msg", None, "Track", False, [_f(_ref("legacy", tn), "old_len", 1), _f(_ref("zunits", tn), "new_len", 2),
+                                                          _f(["single", ["uint", 4]], "flags", 3)]]],
+        "zva.bitproto": [["proto", None, "zunits"], ["option", None, "py.module_name", ["lit", ["s", "zva_bp"]]],
+                         ["alias", None, tn, ["single", ["uint", w[0]]]]],
+        "zvb.bitproto": [["proto", None, "zvb"], ["alias", None, tn, ["single", ["uint", w[1]]]]],
+    }
+    return files, ["Track"], dict(family="alias_clash_imports", expect=(0, None))
+
+
+SCENARIOS = {"dotted_reuse": dotted_reuse, "cross_kind": cross_kind, "popped_by_member": popped_by_member,
+             "twin_short_names": twin_short_names}
+
+
+def map_names(items, f):
+    """rename every identifier of a list of items IN PLACE (definition, field and member names,
+    import as-names, path components); option names and file keys are left alone"""
+    def path(p):
+        p[:] = [f(c) for c in p]
+
+    def tyx(t):
+        if t[1][0] == "ref":
+            path(t[1][1])
+        if t[0] == "arr" and t[2][0] == "ref":
+            path(t[2][1])
+
+    def cexpr(e):
+        if e[0] == "ref":
+            path(e[1])
+        elif e[0] != "int":
+            cexpr(e[1]); cexpr(e[2])
+
+    for it in items:
+        k = it[0]
+        if k == "import":
+            if it[2] is not None:
+                it[2] = f(it[2])
+        elif k == "option":
+            if it[3][0] == "ref":
+                path(it[3][1])
+        elif k == "const":
+            it[2] = f(it[2])
+            if it[3][0] == "ref":
+                path(it[3][1])
+            elif it[3][0] == "expr":
+                cexpr(it[3][1])
+        elif k == "alias":
+            it[2] = f(it[2]); tyx(it[3])
+        elif k == "enum":
+            it[2] = f(it[2])
+            if it[3][0] == "ref":
+                path(it[3][1])
+            map_names(it[4], f)
+        elif k == "msg":
+            it[2] = f(it[2]); map_names(it[4], f)
+        elif k == "field":
+            tyx(it[2]); it[3] = f(it[3])
+        elif k == "efield":
+            it[2] = f(it[2])
+
+
+def scenario(rng, family: Optional[str] = None, in_import: Optional[bool] = None):
+    """one instance of a scenario family; with in_import the scenario lives in an imported file"""
+    family = family or rng.choice(sorted(SCENARIOS))
+    files, top, info = SCENARIOS[family](rng)
+    if in_import is None:
+        in_import = rng.random() < 0.25
+    info["file"] = "rootp.bitproto"
+    if in_import and len(files) == 1:
+        items = files["rootp.bitproto"][1:]
+        files = {"rootp.bitproto": [["proto", None, "rootp"], ["import", None, rng.choice([None, "sc"]), "zscen.bitproto"]],
+                 "zscen.bitproto": [["proto", None, "zscen"]] + items}
+        info["file"] = "zscen.bitproto"
+        top = None
+    return files, top, info
